@@ -1,0 +1,17 @@
+//go:build verif
+// +build verif
+
+package walpb
+
+//@ property C05
+
+//@ func (m *Record) Reset()
+//@   inline
+
+// a record is accepted only when its stored CRC equals the running CRC; otherwise it is wiped
+//@ func (rec *Record) Validate(crc uint32) error
+//@   requires rec != nil
+//@   ensures result == nil <==> old(rec.Crc) == crc
+//@   ensures result == nil ==> rec.Crc == old(rec.Crc) && rec.Type == old(rec.Type) && sameSlice(rec.Data, old(rec.Data))
+//@   ensures result != nil ==> rec.Type == 0 && rec.Crc == 0 && len(rec.Data) == 0
+//@   modifies rec.Type, rec.Crc, rec.Data
